@@ -42,10 +42,20 @@ def run(ctx: core.Ctx, tasks, procs=None, label=""):
             interp_stats["statements_interpreted"] += stats.get("stmts", 0)
             interp_stats["feasibility_queries"] += stats.get("feasibility_queries", 0)
             interp_stats["interp_time_s"] = round(interp_stats["interp_time_s"] + stats.get("interp_s", stats.get("t", 0.0)), 3)
+        # A path that ended because a Python exception escaped from a concrete operation INSIDE the interpreter is either a program error or a gap in the
+        # interpreter's numpy model; without a native confirmation the two cannot be told apart, so such refutations are withheld (UNDECIDED).
+        suspect = (stats or {}).get("native_raise_sites") or []
+        unfaithful = any(st_ == "refuted" and nat is False and not (cx is None or "loop_state" in (cx or {}) or nm_.split(":")[-1].startswith("side."))
+                         for nm_, st_, _b, _d, _i, cx, nat in recs)
+        if stats:
             c = stats.get("canary")
             if c is not None:
                 if c == "refuted+replayed":
                     canaries["refuted_and_replayed"] += 1
+                elif unfaithful or suspect:
+                    fam = ctx.family(family_of(ctx.pid, f"{getattr(t, 'name', '?')}:canary"), SYM, "pyvc")
+                    ctx.record(fam, UNKNOWN, {"obligation": f"{getattr(t, 'name', '?')}:canary", "info": c})
+                    ctx.undecide(fam, f"{getattr(t, 'name', '?')}: canary not confirmed ({c}) on code the interpreter does not model faithfully; verdicts of this case are withheld")
                 else:
                     canaries["failed"].append(f"{getattr(t, 'name', '?')}: {c}")
         for name, status, backend, dt, info, cex, native in recs:
@@ -60,12 +70,20 @@ def run(ctx: core.Ctx, tasks, procs=None, label=""):
                 internal = cex is None or "loop_state" in (cex or {}) or name.split(":")[-1].startswith("side.")
                 if native is True:
                     ctx.violate(fam, f"{name}", f"{name} refuted; the counterexample replays on the real function", cex, True, info)
+                elif (internal or native is None) and suspect:
+                    fam.refuted -= 1
+                    fam.unknown += 1
+                    ctx.undecide(fam, f"{name}: refuted, but a path of the symbolic run ended in a Python exception raised inside the interpreter ({suspect[0]}); "
+                                      f"program error and modelling gap cannot be told apart without a native input - verdict withheld")
                 elif internal or native is None:
                     ctx.violate(fam, f"{name}", f"{name} refuted by the solver ({backend}); no failing input for the real function was found",
                                 cex or {"solver": info}, False, info)
                 else:
-                    raise core.CheckerError(f"{name}: the symbolic interpreter reports a violation that the real function does not show "
-                                            f"on the same input (interpreter unsound here): {cex}")
+                    # the symbolic interpreter reports a violation that the real function does not show on the same input: the interpreter does not
+                    # model this code faithfully, so its verdict is withheld (UNDECIDED), never reported as a violation
+                    fam.refuted -= 1
+                    fam.unknown += 1
+                    ctx.undecide(fam, f"{name}: symbolic counterexample does not reproduce on the real function (interpreter not faithful on this code): {str(cex)[:300]}")
             elif status == "error":
                 ctx.record(fam, UNKNOWN, {"obligation": name, "error": info[-300:]}, dt)
                 ctx.errors.append(f"{name}: {info[-600:]}")
@@ -89,31 +107,69 @@ PYVC_ASSUMPTIONS = [
 PYVC_TRUST = ["pyvc symbolic interpreter + VC generator (hv/pyvc)", "ANF normal form back end (hv/pyvc/expr.py)", "z3 5.1 (python API)", "cvc5 1.0.3 (/usr/bin/cvc5) on z3 'unknown'"]
 
 
+def written_names(module_tree):
+    """names of module-level objects that the module's own code writes to: subscript/attribute stores, del, augmented assignment, mutating method calls, `global`"""
+    import ast
+    MUT = {"append", "extend", "insert", "pop", "remove", "clear", "sort", "reverse", "update", "setdefault", "popitem", "add", "discard", "fill", "__setitem__", "__delitem__"}
+    out = set()
+    for node in ast.walk(module_tree):
+        if isinstance(node, (ast.Subscript, ast.Attribute)) and isinstance(node.ctx, (ast.Store, ast.Del)):
+            base = node.value
+            while isinstance(base, (ast.Subscript, ast.Attribute)):
+                base = base.value
+            if isinstance(base, ast.Name):
+                out.add(base.id)
+        if isinstance(node, ast.AugAssign) and isinstance(node.target, ast.Name):
+            out.add(node.target.id)
+        if isinstance(node, ast.Call) and isinstance(node.func, ast.Attribute) and node.func.attr in MUT:
+            base = node.func.value
+            while isinstance(base, (ast.Subscript, ast.Attribute)):
+                base = base.value
+            if isinstance(base, ast.Name):
+                out.add(base.id)
+        if isinstance(node, ast.Global):
+            out.update(node.names)
+    return out
+
+
 def purity(ctx, fns, family_name, allow=()):
-    """Frame obligation on the real AST: the functions under contract neither read nor write module-level MUTABLE state
-    (their result is a function of their arguments).  Global names they load must resolve to modules, functions, classes or
-    immutable constants."""
-    import ast, inspect, textwrap, types, builtins
+    """Frame obligation on the real AST: the functions under contract neither read nor write module-level MUTABLE state (their result is a function of their
+    arguments).  A global name they load must resolve to a module, function, class, immutable constant, or to a container / object that the module's own code never
+    writes to (a constant lookup table; listed in the evidence)."""
+    import ast, inspect, textwrap, types, sys
     import numpy as np
-    fam = ctx.family(family_name, core.GROUND, "ast", "functions under contract use no module-level mutable state and no global/nonlocal statements")
+    fam = ctx.family(family_name, core.GROUND, "ast", "functions under contract use no module-level state that is written anywhere in their module, and no global statements")
     fam.exhaustive = True
     immut = (int, float, complex, str, bytes, bool, type(None), tuple, frozenset, types.ModuleType, types.FunctionType, types.BuiltinFunctionType, type, np.dtype)
+    written_cache = {}
+    constants = ctx.extra.setdefault("module_level_constant_objects_read", [])
     for fn in fns:
         f = getattr(fn, "__func__", fn)
         try:
             tree = ast.parse(textwrap.dedent(inspect.getsource(f)))
+            mod = sys.modules[f.__module__]
+            if f.__module__ not in written_cache:
+                written_cache[f.__module__] = written_names(ast.parse(inspect.getsource(mod)))
+            written = written_cache[f.__module__]
         except Exception as e:
             ctx.record(fam, core.UNKNOWN)
             ctx.undecide(fam, f"cannot read source of {f}: {e}")
             continue
         bad = []
+        local_names = {a.arg for a in ast.walk(tree) if isinstance(a, ast.arg)} | {n.id for n in ast.walk(tree) if isinstance(n, ast.Name) and isinstance(n.ctx, ast.Store)}
         for node in ast.walk(tree):
-            if isinstance(node, (ast.Global, ast.Nonlocal)) and not isinstance(node, ast.Nonlocal):
+            if isinstance(node, ast.Global):
                 bad.append("global " + ",".join(node.names))
-            if isinstance(node, ast.Name) and node.id in f.__globals__ and node.id not in allow:
+            if isinstance(node, ast.Name) and isinstance(node.ctx, ast.Load) and node.id in f.__globals__ and node.id not in allow and node.id not in local_names:
                 v = f.__globals__[node.id]
-                if not isinstance(v, immut) and not (hasattr(v, "__origin__") or type(v).__module__ == "typing"):
-                    bad.append(f"{node.id} ({type(v).__name__})")
+                if isinstance(v, immut) or hasattr(v, "__origin__") or type(v).__module__ == "typing":
+                    continue
+                if node.id in written:
+                    bad.append(f"{node.id} ({type(v).__name__}, written in the module)")
+                else:
+                    tag = f"{f.__module__}.{node.id} ({type(v).__name__})"
+                    if tag not in constants:
+                        constants.append(tag)
         ok = not bad
         ctx.record(fam, core.PROVED if ok else core.REFUTED, {"function": f.__qualname__})
         if not ok:
